@@ -16,8 +16,16 @@ from . import model, gen
 
 VERIF = os.path.dirname(os.path.dirname(os.path.abspath(__file__)))
 PY = os.environ.get("VERIF_PYTHON", "/venv/bin/python")
-T0 = 946684800.0  # 2000-01-01 00:00 -> "0101000000"
-T1 = 945870300.0  # 1999-12-22 13:45 -> "1222991345": every digit differs from T0's
+T0 = 946684800.0  # 2000-01-01 00:00:00 -> the frozen instant of every reference
+# further frozen instants used to learn which header positions depend on the clock:
+# every digit of every usual field (year, month, day, hour, minute, second,
+# microsecond) differs between at least two of the four
+T_MASK = [
+    T0,
+    945870337.123456,  # 1999-12-22 13:45:37.123456
+    5195231568.654321,  # 2134-08-19 21:52:48.654321
+    549883696.908172,  # 1987-06-05 09:28:16.908172
+]
 
 
 def repo_path():
@@ -227,6 +235,7 @@ class Refs:
         self.by_key = {}
         self.jobs_run = 0
         self.l2_mask = None  # positions of header line 2 that depend on the clock
+        self.hdr_mask = None  # per header line: clock-dependent positions, or None = ignore the line
         self.clock_seam_effective = None
         self.failed = {}
 
@@ -258,7 +267,7 @@ class Refs:
                 if o["key"] is None or o["st"] not in ("ok", "exc"):
                     continue
                 prev = self.by_key.get(o["key"])
-                cur = {"dg": o["dg"], "st": o["st"], "l2": o.get("l2"), "enc": o.get("enc")}
+                cur = {"dg": o["dg"], "st": o["st"], "hdr": o.get("hdr"), "enc": o.get("enc")}
                 if prev is not None and prev["dg"] != cur["dg"]:
                     # two isolated computations of one key disagree: report as a
                     # disagreement of that key (handled by the caller)
@@ -267,39 +276,56 @@ class Refs:
                     self.by_key[o["key"]] = cur
 
     def learn_header_mask(self, chain, texts, files):
-        """Which positions of header line 2 depend on the clock (two frozen instants)."""
-        jobs = [
-            {"job": "mask0", "hashseed": 0, "spec": ref_spec(chain, texts, files, T0)},
-            {"job": "mask1", "hashseed": 0, "spec": ref_spec(chain, texts, files, T1)},
-        ]
+        """Which positions of the three header lines depend on the clock (the same
+        write at four frozen instants).  hdr_mask[k] is a list of positions, or
+        None when the whole line k must be ignored (length varies, or the clock
+        seam has no effect on this tree and the real clock shows through)."""
+        jobs = [{"job": f"mask{k}", "hashseed": 0, "spec": ref_spec(chain, texts, files, t)} for k, t in enumerate(T_MASK)]
         res = self.farm.run(jobs)
-        l2 = []
+        hdrs = []
         for j in jobs:
             ans = res[j["job"]]
             if ans["status"] != "ok":
                 raise HarnessFailure(f"header mask job failed: {ans.get('error')}")
             o = ans["record"]["ops"][-1]
-            l2.append(o.get("l2"))
-        a, b = l2
-        if a is None or b is None:
-            self.l2_mask, self.clock_seam_effective = None, False
+            hdrs.append(o.get("hdr"))
+        self.clock_reads_seen = any(res[j["job"]]["record"].get("clock_reads", 0) for j in jobs)
+        if any(h is None or len(h) != 3 for h in hdrs):
+            self.hdr_mask, self.clock_seam_effective = [None, None, None], False
             return
-        if a == b or len(a) != len(b):
-            self.clock_seam_effective = a != b
-            self.l2_mask = None  # whole line masked
-            return
-        self.clock_seam_effective = True
-        self.l2_mask = [i for i in range(len(a)) if a[i] != b[i]]
+        self.clock_seam_effective = any(h != hdrs[0] for h in hdrs[1:])
+        mask = []
+        for k in range(3):
+            vals = [h[k] for h in hdrs]
+            if not self.clock_seam_effective:
+                # nothing learned: if the writer reads a clock we do not control,
+                # any header position may vary with real time
+                mask.append(None)
+            elif len({len(v) for v in vals}) != 1:
+                mask.append(None)
+            else:
+                mask.append([i for i in range(len(vals[0])) if len({v[i] for v in vals}) > 1])
+        self.hdr_mask = mask
+        self.l2_mask = mask[1]
 
-    def l2_equal(self, x, y):
-        if x is None or y is None:
-            return x == y
-        if self.l2_mask is None:
-            return True
-        if len(x) != len(y):
-            return False
-        m = set(self.l2_mask)
-        return all(x[i] == y[i] for i in range(len(x)) if i not in m)
+    def hdr_diff(self, ref, obs):
+        """None if the observed header equals the reference outside clock-dependent
+        positions, else a description."""
+        if ref is None or obs is None:
+            return None if ref == obs else f"header missing: {ref!r} vs {obs!r}"
+        if len(ref) != len(obs):
+            return f"header has {len(obs)} lines, reference {len(ref)}"
+        for k, (x, y) in enumerate(zip(ref, obs)):
+            m = self.hdr_mask[k] if self.hdr_mask else None
+            if m is None:
+                continue
+            if len(x) != len(y):
+                return f"header line {k + 1}: reference {x!r}, observed {y!r}"
+            ms = set(m)
+            for i in range(len(x)):
+                if i not in ms and x[i] != y[i]:
+                    return f"header line {k + 1} differs at column {i} (outside the clock-dependent columns {m}): reference {x!r}, observed {y!r}"
+        return None
 
 
 # --------------------------------------------------------------------------
@@ -339,8 +365,8 @@ def evaluate(spec, rec, refs):
                 tainted.add(i)
                 detail = f"isolated reference: {ref['st']} {ref['dg']} {_short(ref.get('enc'))}; observed: {o['st']} {o['dg']} {_short(o.get('enc'))}"
                 out.append({"prop": prop, "clause": "differs_from_isolated_reference", "c": c, "i": i, "op": o["op"], "key": o["key"], "detail": detail})
-            elif o["op"] == "write" and o["st"] == "ok" and not refs.l2_equal(o.get("l2"), ref.get("l2")):
-                out.append({"prop": "C14", "clause": "header_differs_outside_timestamp", "c": c, "i": i, "op": "write", "key": o["key"], "detail": f"reference line 2 {ref.get('l2')!r}, observed {o.get('l2')!r}, clock-dependent positions {refs.l2_mask}"})
+            elif o["op"] == "write" and o["st"] == "ok" and refs.hdr_diff(ref.get("hdr"), o.get("hdr")):
+                out.append({"prop": "C14", "clause": "header_differs_outside_timestamp", "c": c, "i": i, "op": "write", "key": o["key"], "detail": refs.hdr_diff(ref.get("hdr"), o.get("hdr"))})
             if (c, i) in flagged:
                 tainted.add(i)
     return out
